@@ -176,14 +176,17 @@ var DefForms = []struct{ Name, Fmt string }{ // %s = body
 	{"func", "(func g [n:int64 acc:int64] [r:int64] %s)"},
 	{"func-after-func-of-same-arity", "(func g [n:int64 acc:int64] [r:int64] 0) (func g [n:int64 acc:int64] [r:int64] %s)"},
 	{"defn-after-func", "(func g [n:int64] [r:int64] n) (defn g [n acc] %s)"},
-}
-
-// PendingDefForms: on the unchanged tree (8e7da1c) a func that replaces a function of ANOTHER arity is
-// not optimised (FuncBuilder does not register the function being built in knownFunctions, the
-// arity pre-check sees the old one).  Reported to the lead; enabled once the decision is made.
-var PendingDefForms = []struct{ Name, Fmt string }{
+	// repaired in a18ec20 (FuncBuilder registers the function being built before compiling the body)
 	{"func-after-func-of-other-arity", "(func g [n:int64] [r:int64] n) (func g [n:int64 acc:int64] [r:int64] %s)"},
 	{"func-after-defn-of-other-arity", "(defn g [n] n) (func g [n:int64 acc:int64] [r:int64] %s)"},
+}
+
+// ByNameForms: typed declarations whose self tail call passes its arguments BY NAME (a: b:): such
+// calls are ordinary calls (a18ec20), so no constant-space expectation: value comparison only.
+var ByNameForms = []struct{ Name, Src string }{
+	{"func-by-name-direct", "(func tf [a:int64 b:int64] [r:int64] (cond (== a 0) b (HEAD a:(- a 1) b:(+ b 1)))) (tf a:%d b:0)"},
+	{"func-by-name-in-let-and", "(func tf [a:int64 b:int64] [r:int64] (cond (== a 0) b (let [k 1] (and true (HEAD a:(- a 1) b:(+ b k)))))) (tf a:%d b:0)"},
+	{"func-by-name-swapped-order", "(func tf [a:int64 b:int64] [r:int64] (cond (== a 0) b (HEAD b:(+ b 1) a:(- a 1)))) (tf b:0 a:%d)"},
 }
 
 func (h *Harness) defforms(deep []int) {
@@ -227,6 +230,23 @@ func (h *Harness) defforms(deep []int) {
 					}
 					h.counts["space-comparisons"]++
 				}
+			}
+		}
+	}
+}
+
+func (h *Harness) bynames() {
+	for _, bn := range ByNameForms {
+		for _, d := range []int{0, 1, 2, 3, 10, 60} {
+			src := fmt.Sprintf(strings.ReplaceAll(bn.Src, "HEAD", "tf"), d)
+			obs := h.eval(src, budgetFor(d))
+			tw := h.eval(fmt.Sprintf(strings.ReplaceAll(bn.Src, "HEAD", "(begin tf)"), d), budgetFor(d)*3)
+			h.counts["byname-runs"]++
+			h.out.Dist["defform:by-name"]++
+			want := fmt.Sprintf("V:I%d|T:", d)
+			if obs != want || obs != tw {
+				h.fail(Failure{Kind: "byname-value", Shape: "defform:" + bn.Name, Depth: d, Source: src, Impl: obs, Expected: want + " (twin: " + tw + ")",
+					Note: "typed declaration whose self tail call passes its arguments by name", Size: 8 + d})
 			}
 		}
 	}
